@@ -52,6 +52,7 @@ type Engine struct {
 	contractFiles []string
 
 	heapSortHint map[string]Sort
+	trigSorts    map[string]Sort
 	heapTypeHint map[string]types.Type
 	modsMemo     map[*ssa.Function]map[string]bool
 	modsBusy     map[*ssa.Function]bool
@@ -79,7 +80,7 @@ var loadPatterns = []string{
 func NewEngine(repo string) (*Engine, error) {
 	e := &Engine{repo: repo, u: NewUniverse(), contracts: map[string]*Contract{}, loopContracts: map[string]*Contract{},
 		specFuns: map[string]*Contract{}, ghostVars: map[string]Sort{}, specSorts: map[string]Sort{}, specAccessors: map[string]accInfo{},
-		chanInvs: map[string]*Contract{}, callbacks: map[string]*Contract{}, callsites: map[string][]*Contract{}, impls: map[string]*Contract{}, footprints: map[string][]string{}, fpBusy: map[string]bool{}, immutable: map[string]bool{}, guards: map[string]string{}, ghostHooks: map[string][]*Contract{}, globalConsts: map[string]string{}, heapSortHint: map[string]Sort{}, heapTypeHint: map[string]types.Type{},
+		chanInvs: map[string]*Contract{}, callbacks: map[string]*Contract{}, callsites: map[string][]*Contract{}, impls: map[string]*Contract{}, footprints: map[string][]string{}, fpBusy: map[string]bool{}, immutable: map[string]bool{}, guards: map[string]string{}, ghostHooks: map[string][]*Contract{}, globalConsts: map[string]string{}, heapSortHint: map[string]Sort{}, trigSorts: map[string]Sort{}, heapTypeHint: map[string]types.Type{},
 		modsMemo: map[*ssa.Function]map[string]bool{}, modsBusy: map[*ssa.Function]bool{}, globals: map[*ssa.Global]int{},
 		funcs: map[*ssa.Function]int{}, ifaceTypes: map[string]types.Type{}, cardSorts: map[Sort]bool{}, ufs: map[string]string{},
 		allFns: map[string]*ssa.Function{}, spkgs: map[string]*ssa.Package{}}
@@ -847,6 +848,11 @@ func (e *Engine) Prelude() string {
 	sort.Strings(us)
 	for _, k := range us {
 		b.WriteString(e.ufs[k] + "\n")
+		if strings.HasPrefix(k, "trg_") {
+			// trigger markers hold of everything: they only keep pattern terms alive in split goals
+			srt := e.trigSorts[k]
+			fmt.Fprintf(&b, "(assert (forall ((x!tg %s)) (! (uf_%s x!tg) :pattern ((uf_%s x!tg)))))\n", srt, k, k)
+		}
 	}
 	is := make([]string, 0, len(e.ifaceTypes))
 	for k := range e.ifaceTypes {
